@@ -773,6 +773,10 @@ mod sync {
                     #[inline]
                     fn poll(self: Pin<&mut Self>, cx: &mut Context<'_>) -> Poll<Self::Output> {
                         #[cfg(ohkami_verif)] crate::__verif__::sched("p12-");
+                        if CATCH.load(Ordering::SeqCst) {
+                            /* already interrupted: don't let a ready `task` (a queued connection) win again */
+                            return Poll::Ready(None)
+                        }
                         match unsafe {Pin::new_unchecked(&mut self.get_unchecked_mut().0)}.poll(cx) {
                             Poll::Ready(t) => Poll::Ready(Some(t)),
                             Poll::Pending  => if CATCH.load(Ordering::SeqCst) {
